@@ -79,6 +79,7 @@ let natlist s = List.map (fun x -> nat_of_int (int_of_string x)) (split_on ',' s
 let filf_of = function
   | ["F"; m; r] -> KeepMod (z_of_string m, z_of_string r)
   | ["Fl"; t] -> KeepLt (z_of_string t)
+  | ["Fg"; t] -> KeepGe (z_of_string t)
   | ["Fa"] -> KeepAll
   | l -> failwith ("filf: " ^ String.concat ":" l)
 
@@ -86,7 +87,7 @@ let dop_of (s : string) : dop =
   match String.split_on_char ':' s with
   | ["M"; a; b] -> DMap (Affine (z_of_string a, z_of_string b))
   | ["Mm"; m] -> DMap (MapMod (z_of_string m))
-  | ("F" | "Fl" | "Fa") :: _ as l -> DFilter (filf_of l)
+  | ("F" | "Fl" | "Fg" | "Fa") :: _ as l -> DFilter (filf_of l)
   | ["X"; k; d] -> DFlatMap (Rep (nat_of_int (int_of_string k), z_of_string d))
   | ["Xm"; m] -> DFlatMap (RepMod (z_of_string m))
   | ["O"; m; r; a; b] -> DFilterMap (SomeMod (z_of_string m, z_of_string r, z_of_string a, z_of_string b))
